@@ -240,15 +240,16 @@ static void build_ops() {
 #endif
 }
 
+static bool g_allow_exit_pending = true;    // exit()/destruction/load(<inactive>) are offered also while a request is outstanding (DESIGN.md O11); --no-exit-pending restores the narrower alphabet
 // in-contract filter (DESIGN.md 4.3): asserted preconditions of the library
 static bool op_enabled(const Op& op, const Abs& pre) {
 	const bool active = pre.active != NONE8;
 	switch (op.k) {
 	case OP_ENTER: return !active && tx_empty(pre.req);
 	case OP_REPLAY_E: return !active && tx_empty(pre.req);
-	case OP_EXIT: case OP_DESTROY: return active && tx_empty(pre.req);
+	case OP_EXIT: case OP_DESTROY: return active && (tx_empty(pre.req) || g_allow_exit_pending);
 	case OP_LOAD: if (op.b && op.a != (active ? pre.active : N)) return false;   /* the round trip through a reused buffer re-loads the current activity */
-		return VX_MANUAL ? (op.a != N || !active || tx_empty(pre.req)) : active;   // loading 'inactive' runs the final exit, which asserts that no request is outstanding
+		return VX_MANUAL ? (op.a != N || !active || tx_empty(pre.req) || g_allow_exit_pending) : active;   // loading 'inactive' runs the final exit, which asserts that no request is outstanding
 	case OP_SAVE: return VX_MANUAL ? true : active;
 	case OP_COPY: return true;
 	case OP_ATTACH: return true;
@@ -768,6 +769,7 @@ int main(int argc, char** argv) {
 		else if ((v = val("--ids"))) { g_nids = 0; for (const char* p = v; *p && g_nids < 8; ) { int k = atoi(p); if (k >= 0 && k < N) g_ids[g_nids++] = k; while (*p && *p != ',') ++p; if (*p == ',') ++p; } if (!g_nids) die("--ids: no valid id"); }
 		else if ((v = val("--copy-dev"))) opt.copy_dev = atoi(v);
 		else if (!strcmp(a, "--copy-move")) g_comp.move = true;
+		else if (!strcmp(a, "--no-exit-pending")) g_allow_exit_pending = false;
 		else if ((v = val("--max-states"))) opt.max_states = strtoul(v, nullptr, 0);
 		else if (!strcmp(a, "--strategies")) opt.strategies = true;
 		else if (!strcmp(a, "--replica")) opt.companions_replica = true;
